@@ -4,7 +4,8 @@
     (payload vocabulary, canonical pickle encoding, JSON conversion). *)
 From Coq Require Import List ZArith NArith Bool.
 Import ListNotations.
-From DD Require Import Base.PyStr Base.Value Pickle.Vm Pickle.Codec Pickle.PickleProofs Pickle.CodecProofs Pickle.JsonProofs.
+From DD Require Import Base.PyStr Base.Value Pickle.Vm Pickle.Codec Pickle.PickleProofs Pickle.CodecProofs Pickle.JsonProofs
+  Pickle.Encodes Pickle.EncodesProofs.
 
 (* pickle_load(dump of d) = d for EVERY well-formed payload d (any nesting, every
    category's vocabulary: values, type objects, NoneType, sets, frozensets, tuples,
@@ -15,6 +16,16 @@ Theorem C14_pickle_roundtrip : forall (w : world) (d : pv),
   calls_ok w -> types_ok w d -> wfp d = true -> load w (enc_prog d) = Some d.
 Proof. exact pickle_roundtrip. Qed.
 Print Assumptions C14_pickle_roundtrip.
+
+(* not only the canonical dump: EVERY encoding in the syntactic class [accepts]
+   (any opcode variants, single or batched container filling in any number of
+   batches, MEMOIZE / BINPUT / PUT after any object, BINGET of memoized strings,
+   numbers, tuples, frozensets and classes - CPython's scheme; not: a shared list /
+   dict / set fetched from the memo) loads to the payload it encodes *)
+Theorem C14_accepted_encodings_roundtrip : forall (w : world) (prog : list op) (d : pv),
+  calls_ok w -> types_ok w d -> wfp d = true -> accepts prog d = true -> load w prog = Some d.
+Proof. exact accepts_sound. Qed.
+Print Assumptions C14_accepted_encodings_roundtrip.
 
 (* the behaviour of a Delta is a function of its payload (flags travel in the
    payload or are constructor arguments): the reloaded delta does the same *)
